@@ -46,7 +46,99 @@ fn cfg_for(job: &C07Job) -> HybCfg {
     c
 }
 
+/// Regime D: wrap-around. The device is filled once (so that the oldest blocks are reclaimed and handed out
+/// again), then `batches[1]` more entries are written into a reused block whose previous generation's later
+/// blobs are still on the device behind the new data. What is readable from disk is recorded, the store is
+/// closed and reopened, and everything is read again: recovery must reconstruct exactly that set — no entry of
+/// a reclaimed generation comes back, none of the current ones is lost.
+fn run_wrap(job: &C07Job, res: &mut ShardResult) -> Vec<(String, String)> {
+    let mut out = vec![];
+    tokio::sim::reset();
+    let mut cfg = cfg_for(job);
+    cfg.mem_capacity = 8;
+    let mut w = World::new(cfg.clone());
+    if let Err(e) = w.open() {
+        return vec![("X.open".into(), e)];
+    }
+    let mut next_key = 1u64;
+    let mut op = 0;
+    for (bi, batch) in job.batches.iter().enumerate() {
+        // the filling phase goes block by block (254 one-page entries each), the last batch in one go
+        let chunk = if bi == 0 { 254 } else { batch.len().max(1) };
+        for part in batch.chunks(chunk) {
+            for total in part {
+                let k = next_key;
+                next_key += 1;
+                w.issue(op, &HOp::Ins { k, sz: total - ENTRY_OVERHEAD, loc: Loc::Default });
+                op += 1;
+            }
+            w.quiesce();
+            res.add("batches", 1);
+        }
+    }
+    let keys: Vec<u64> = (1..next_key).collect();
+    w.issue(op, &HOp::EvictAll);
+    w.quiesce();
+    let readable = |w: &World, from: usize| -> Result<std::collections::BTreeSet<u64>, (String, String)> {
+        let h = w.hist.lock().unwrap();
+        let mut set = std::collections::BTreeSet::new();
+        for l in h.lookups[from..].iter() {
+            match &l.res {
+                LookupRes::Hit { key, ver: 1, .. } if *key == l.key => {
+                    set.insert(l.key);
+                }
+                LookupRes::Miss => {}
+                other => return Err(("Y.unreadable".into(), format!("key {} reads {:?}", l.key, other))),
+            }
+        }
+        Ok(set)
+    };
+    let before = w.hist.lock().unwrap().lookups.len();
+    w.read_all(&keys, "final");
+    let r1 = match readable(&w, before) {
+        Ok(s) => s,
+        Err(e) => return vec![e],
+    };
+    w.issue(op + 1, &HOp::EvictAll);
+    w.graceful_restart();
+    let before = w.hist.lock().unwrap().lookups.len();
+    w.read_all(&keys, "after-restart");
+    let r2 = match readable(&w, before) {
+        Ok(s) => s,
+        Err(e) => return vec![e],
+    };
+    res.add("wrap_readable_before", r1.len() as u64);
+    res.add("wrap_reclaimed", (keys.len() - r1.len()) as u64);
+    let back: Vec<u64> = r2.difference(&r1).copied().collect();
+    if !back.is_empty() {
+        out.push((
+            "Y.resurrected-generation".into(),
+            format!("{} keys whose block had been reclaimed (misses before the restart) are served again after reopen, e.g. {:?}: recovery took blobs of a previous generation of a reused block for current ones", back.len(), &back[..back.len().min(6)]),
+        ));
+    }
+    let lost: Vec<u64> = r1.difference(&r2).copied().collect();
+    if !lost.is_empty() {
+        out.push((
+            "Y.unreadable".into(),
+            format!("{} keys that were loadable from disk before close are misses after reopen, e.g. {:?}", lost.len(), &lost[..lost.len().min(6)]),
+        ));
+    }
+    for p in w.hist.lock().unwrap().panics.iter() {
+        out.push(("X.panic".into(), p.clone()));
+    }
+    if let Some(s) = &w.stalled {
+        out.push(("X.stall".into(), s.clone()));
+    }
+    res.add("steps", w.steps as u64);
+    res.add("entries", keys.len() as u64);
+    res.add("hits_disk", r2.len() as u64);
+    out
+}
+
 fn run(job: &C07Job, res: &mut ShardResult) -> Vec<(String, String)> {
+    if job.regime == 'D' {
+        return run_wrap(job, res);
+    }
     let mut out = vec![];
     tokio::sim::reset();
     let cfg = cfg_for(job);
@@ -302,6 +394,21 @@ fn jobs(tier: Tier) -> Vec<C07Job> {
                 }
             }
         }
+    }
+    // Regime D: wrap-around on 1 MiB blocks (254 one-page entries per block: a full blob of 170 and one of 84).
+    // All four blocks are filled, then n more entries go into the first reused block, n around the blob
+    // boundaries 170 and 254 — so that the new data ends exactly at, just before or just after the place where
+    // a blob index of the block's previous generation still lies.
+    let extra: Vec<usize> = if tier == Tier::Quick { vec![169, 170, 171, 254] } else { vec![1, 84, 85, 168, 169, 170, 171, 172, 253, 254, 255, 340] };
+    for n in extra {
+        v.push(C07Job {
+            regime: 'D',
+            block_size: 1024 * 1024,
+            blocks: 4,
+            flushers: 1,
+            batches: vec![vec![100 + ENTRY_OVERHEAD; 4 * 254], vec![100 + ENTRY_OVERHEAD; n]],
+            compression: 0,
+        });
     }
     v
 }
